@@ -634,7 +634,9 @@ impl SymExpr {
             Self::Broadcast(lhs, rhs) => {
                 let x = lhs.eval(symbols)?;
                 let y = rhs.eval(symbols)?;
-                Ok(x.max(y))
+                // The operands are equal, or one of them is 1 and the result
+                // is the other. This differs from `max` when the other is 0.
+                Ok(if x == 1 { y } else { x })
             }
         }
     }
